@@ -266,6 +266,14 @@ def proof_gate(ctx, extra_tb=None):
         info = property_theorems(ctx.pid)
         if not info["ok"]:
             broken = "Properties/%s.v does not check:\n%s" % (ctx.pid, info["log"][-3000:])
+    chk = None
+    if not broken and ctx.tier == "thorough":
+        # independent re-check of the compiled property file and everything it depends on
+        rc, out = sh("coqchk -silent -o -Q %s '' Properties.%s" % (COQ, ctx.pid), cwd=COQ, timeout=3000)
+        m = re.search(r"\* Axioms:\s*(.*?)\n\s*\n", out, flags=re.S)
+        chk = dict(rc=rc, axioms=(m.group(1).strip() if m else "?"))
+        if rc != 0:
+            broken = "coqchk rejects Properties.%s: %s" % (ctx.pid, out[-2000:])
     n = len(info["theorems"])
     cov = dict(
         obligations=max(n, 1),
@@ -276,4 +284,6 @@ def proof_gate(ctx, extra_tb=None):
         checker_cmd="make -C coq -j16 && coqc -Q coq '' coq/Properties/%s.v" % ctx.pid,
         trusted_base=KERNEL_TB + (extra_tb or []),
     )
+    if chk:
+        cov["coqchk"] = chk
     return cov, broken
